@@ -665,6 +665,9 @@ func Mod(a, b *Term) *Term {
 	if _, ok := b.ConstInt(); !ok && b.Lo != nil && b.Lo.Sign() > 0 && IsMultipleOf(a, b) {
 		return I64(0)
 	}
+	if a.Op == OMod && len(a.Args) == 2 && a.Args[1] == b {
+		return a // (x mod b) mod b
+	}
 	t := &Term{Op: OMod, Sort: Int, Args: []*Term{a, b}, Lo: bi0}
 	if bv, ok := b.ConstInt(); ok && bv.Sign() > 0 {
 		if a.Lo != nil && a.Hi != nil && a.Lo.Sign() >= 0 && a.Hi.Cmp(bv) < 0 {
